@@ -69,6 +69,11 @@ Call(g) ==           \* __call__: _reset_run_tracking accepts
   /\ last' = [ev |-> "Call", gen |-> g]
   /\ UNCHANGED <<managed, calling, genLive, early, pool, inCall, err>>
 
+CallFailsAtOnce(g) ==   \* len(iterable) raises: evaluated before the instance is marked as running, nothing else happens
+  /\ Idle /\ ~running /\ ncalls < MaxCalls
+  /\ ncalls' = ncalls + 1 /\ early' = TRUE /\ last' = [ev |-> "Call", gen |-> g]
+  /\ UNCHANGED <<managed, calling, aborted, running, isGen, genLive, todo, pool, inCall, err, nsub>>
+
 CallRejected ==      \* __call__ while a run is in progress: RuntimeError, no backend call at all
   /\ Idle /\ running /\ isGen
   /\ last' = E("Rejected")
@@ -128,7 +133,7 @@ Submit ==            \* dispatch by the caller or by a completion callback while
 
 Kinds == {"returned", "raised_task", "raised_iter", "timeout", "closed", "other", "none"}
 Next == \/ Enter \/ CallRejected \/ Done \/ ExitBegin \/ SetupFails \/ Step \/ Submit
-        \/ \E g \in BOOLEAN : Call(g)
+        \/ \E g \in BOOLEAN : Call(g) \/ CallFailsAtOnce(g)
         \/ \E k \in Kinds : End(k)
         \/ \E e \in BOOLEAN : Finalise(e)
 Spec == Init /\ [][Next]_vars /\ WF_vars(Step) /\ WF_vars(\E e \in BOOLEAN : Finalise(e))
